@@ -58,6 +58,9 @@ Shapes(remote, persist) ==
     \* delete combined with partial
     \cup {U(d, "empty", NoSel, "sel", Sel(k), {}, remote, persist) : k \in StoredKeys, d \in One(AllKeys)}
     \cup (IF Rich THEN {U(d, "empty", NoSel, "elem", NoSel, e, remote, persist) : e \in Elems, d \in One(AllKeys \cup {NoKey})} ELSE {})
+    \* (a delete selector combined with a selector update of another item)
+    \cup (IF Rich THEN UNION {{U(<<Item(NoKey, d.v, d.w, d.chg)>>, "sel", Sel(k), "sel", Sel(k2), {}, remote, persist) :
+                                  k2 \in StoredKeys \ {k}, d \in DataVariants} : k \in StoredKeys} ELSE {})
     \* (a delete filter with elements only, combined with a selector update: the selector path returns before the merge)
     \cup (IF Rich THEN {U(<<Item(NoKey, d.v, d.w, d.chg)>>, "sel", Sel(k), "elem", NoSel, e, remote, persist) :
                            k \in StoredKeys, e \in {{"v"}, {"w"}}, d \in DataVariants} ELSE {})
